@@ -48,7 +48,7 @@ def _tree_runs(tier):
 
 
 def plan(prop, tier):
-  return len(_tree_runs(tier)) + (1600 if tier == 'quick' else 48000)
+  return len(_tree_runs(tier)) + (1600 if tier == 'quick' else 20000)
 
 
 def worker_class(prop, tier, run):
